@@ -193,63 +193,79 @@ func (in *Interp) choice(n int, label string) int {
 	return k
 }
 
-// concretize turns a symbolic integer into a concrete one by forking over
-// its feasible values (at most cfg.MaxConcretize of them; more is cut as outside).
+// concretize turns a symbolic integer into a concrete one by forking over its
+// feasible values below cfg.MaxConcretize; larger values form one path that is cut
+// as outside the bound (unless the value is unique on this path).
 func (in *Interp) concretize(t *Term, what string) int64 {
 	if t.IsConst() {
 		return sx(t.Val, t.W)
 	}
-	ps := in.ps
 	st := in.st
-	for n := 0; ; n++ {
+	k := uint64(in.cfg.MaxConcretize)
+	small := st.Ult(t, st.Const(k, t.W))
+	if !in.branch(small) {
+		// t >= K on this path: acceptable only when it is pinned to a single value
+		ps := in.ps
+		if ps.replaying() {
+			d := ps.next()
+			if d.Kind != "cu" {
+				panic(fmt.Sprintf("replay divergence: expected cu, have %q (%s)", d.Kind, in.where()))
+			}
+			in.assertPC(st.Eq(t, st.Const(d.Val, t.W)))
+			return sx(d.Val, t.W)
+		}
+		r, m := in.sol.Check(nil, true, []*Term{t})
+		in.out.Queries++
+		if r == Sat {
+			v := modelOf(m, t)
+			if !in.feasible(st.Ne(t, st.Const(v, t.W))) {
+				ps.record(Decision{N: 1, Val: v, Kind: "cu", Forced: true}, nil)
+				in.assertPC(st.Eq(t, st.Const(v, t.W)))
+				return sx(v, t.W)
+			}
+		}
+		in.out.Msg = fmt.Sprintf("%s can be >= %d at %s", what, k, in.site())
+		panic(abort{kind: "outside", msg: in.out.Msg})
+	}
+	// enumerate the values below K
+	ps := in.ps
+	for v := uint64(0); v < k; v++ {
+		c := st.Const(v, t.W)
+		eq := st.Eq(t, c)
 		if ps.replaying() {
 			d := ps.next()
 			if d.Kind != "cz" {
 				panic(fmt.Sprintf("replay divergence: expected cz, have %q (%s)", d.Kind, in.where()))
 			}
-			c := st.Const(d.Val, t.W)
+			v = d.Val
 			if d.N == 1 {
-				in.assertPC(st.Eq(t, c))
-				return sx(d.Val, t.W)
+				in.assertPC(st.Eq(t, st.Const(v, t.W)))
+				return sx(v, t.W)
 			}
-			in.assertPC(st.Ne(t, c))
+			in.assertPC(st.Ne(t, st.Const(v, t.W)))
 			continue
 		}
-		if in.cfg.NoFork {
-			in.unsupported("concretisation in no-fork mode: " + what)
+		if !in.feasible(eq) {
+			in.assertPC(st.BNot(eq))
+			continue
 		}
-		if n >= in.cfg.MaxConcretize {
-			in.out.Msg = "more than " + fmt.Sprint(in.cfg.MaxConcretize) + " values for " + what + " at " + in.where()
-			panic(abort{kind: "outside", msg: in.out.Msg})
-		}
-		// prefer small values: ask for a model, then try to minimise cheaply
-		r, m := in.sol.Check(nil, true, []*Term{t})
-		in.out.Queries++
-		if r != Sat {
-			if r == Unknown {
-				in.out.Unknowns++
-				panic(abort{kind: "unknown", msg: "solver unknown while concretising " + what})
-			}
-			panic(abort{kind: "infeasible", msg: "no more values for " + what})
-		}
-		var v uint64
-		if t.Op == OVar {
-			v = m[t.Name]
-		} else {
-			v = m["t"+fmt.Sprint(t.ID)]
-		}
-		v = in.minimise(t, v)
-		c := st.Const(v, t.W)
-		// is another value possible?
-		other := in.feasible(st.Ne(t, c))
+		other := in.feasible(st.BNot(eq))
 		if other {
 			ps.record(Decision{N: 1, Val: v, Kind: "cz"}, []Decision{{N: 0, Val: v, Kind: "cz"}})
 		} else {
 			ps.record(Decision{N: 1, Val: v, Kind: "cz", Forced: true}, nil)
 		}
-		in.assertPC(st.Eq(t, c))
+		in.assertPC(eq)
 		return sx(v, t.W)
 	}
+	panic(abort{kind: "infeasible", msg: "no value left for " + what})
+}
+
+func modelOf(m map[string]uint64, t *Term) uint64 {
+	if t.Op == OVar {
+		return m[t.Name]
+	}
+	return m["t"+fmt.Sprint(t.ID)]
 }
 
 // minimise lowers a model value towards the smallest feasible one (unsigned
